@@ -137,6 +137,8 @@ pub enum Forge {
     SizesEntry(i32, u32),
     SizesLast(u32),
     SizesEmpty,
+    /// n extra entries of value v in front of the genuine ones (sums of entries, not single fields, get large)
+    SizesFill(u32, u32),
     /// block stream: first start block name length / first content block length
     StartNameLen(u64),
     ContentLen(u64),
@@ -292,6 +294,11 @@ pub fn build_hostile(c: &Case, k: &K) -> (Vec<u8>, Vec<[u8; 32]>) {
             }
             Some(Forge::SizesLast(v)) => last = *v,
             Some(Forge::SizesEmpty) => sizes.clear(),
+            Some(Forge::SizesFill(n, v)) => {
+                let mut t = vec![*v; *n as usize];
+                t.extend_from_slice(&sizes);
+                sizes = t;
+            }
             _ => {}
         }
         let tstart = out.len();
@@ -409,6 +416,7 @@ pub fn cases(ctx: &Ctx) -> Vec<Case> {
         forges.push(Forge::DeepOffsets(n));
     }
     forges.extend([Forge::OversizedBlock(1), Forge::OversizedBlock(2)]);
+    forges.extend([Forge::SizesFill(2, 0x8000_0000), Forge::SizesFill(3, 0x5555_5556), Forge::SizesFill(2, 0xffff_ffff), Forge::SizesFill(1, 0xffff_ffff), Forge::SizesFill(70_000, 0xffff), Forge::SizesFill(5, 0)]);
     for f in &forges {
         for p in &small {
             if matches!(f, Forge::DeepOffsets(_)) && p.files.len() < 2 {
@@ -419,7 +427,7 @@ pub fn cases(ctx: &Ctx) -> Vec<Case> {
             if matches!(f, Forge::DeepOffsets(n) if *n > 20_000 && p.layers != 0) {
                 continue;
             }
-            if matches!(f, Forge::SizesLen(_) | Forge::SizesCount(_) | Forge::SizesEntry(..) | Forge::SizesLast(_) | Forge::SizesEmpty | Forge::OversizedBlock(_)) && p.layers & 2 == 0 {
+            if matches!(f, Forge::SizesLen(_) | Forge::SizesCount(_) | Forge::SizesEntry(..) | Forge::SizesLast(_) | Forge::SizesEmpty | Forge::SizesFill(..) | Forge::OversizedBlock(_)) && p.layers & 2 == 0 {
                 continue;
             }
             v.push(Case { base: Base::Prog(p.clone()), forge: Some(f.clone()), muts: vec![], ops_seed: rng.next() });
